@@ -340,8 +340,151 @@ def rule_corner_tables(chk, prog):
     (r.bad if bad else r.ok)("createStraightConstraint corner choice", fc.where(), bad or "")
 
 
+_LOG_HOOKS = {"topology::Log*": lambda it, n, env: -1, "topology::Output2FILE::Stream": lambda it, n, env: None}
+
+
+def rule_prune(chk, prog):
+    """EdgePoint::prune: merging the two segments at a straightened bend loses nothing."""
+    r = chk.rule("PRUNE-MERGE", "EdgePoint::prune interpreted on an edge A -> P -> B with 0..2 StraightConstraints on either segment "
+                 "(about the pruned bend's own node and about other nodes): the merged segment runs A -> B and is linked into both end "
+                 "points and into the edge's first/last segment, the segment count drops by one, both ends get their bend constraint "
+                 "rebuilt, and EVERY StraightConstraint of both old segments is offered to transferStraightConstraint of the merged "
+                 "segment exactly once (a constraint that is not carried over leaves the merged segment unguarded against that node "
+                 "until the next scan)", floor=6)
+    fn = prog.fn("topology::EdgePoint::prune")
+    SC = "topology::StraightConstraint *"
+    n_eval = 0
+    for n_in, n_out, first_is_in, last_is_out in [(0, 0, True, True), (1, 0, True, False), (0, 1, False, True), (2, 1, False, False),
+                                                   (1, 2, True, True), (2, 2, False, True)]:
+        N = default_obj(prog, "topology::Node", {"id": 1})
+        M = default_obj(prog, "topology::Node", {"id": 2})
+        e = default_obj(prog, "topology::Edge", {"nSegments": 4})
+        A = default_obj(prog, "topology::EdgePoint", {"node": M, "rectIntersect": 0})
+        B = default_obj(prog, "topology::EdgePoint", {"node": M, "rectIntersect": 1})
+        P = default_obj(prog, "topology::EdgePoint", {"node": N, "rectIntersect": 3})
+        cs_in = [default_obj(prog, "topology::StraightConstraint", {"node": (N, M)[i % 2], "pos": i}) for i in range(n_in)]
+        cs_out = [default_obj(prog, "topology::StraightConstraint", {"node": (N, M)[i % 2], "pos": 10 + i}) for i in range(n_out)]
+        other1 = default_obj(prog, "topology::Segment", {"edge": e})
+        other2 = default_obj(prog, "topology::Segment", {"edge": e})
+        sin = default_obj(prog, "topology::Segment", {"edge": e, "start": A, "end": P, "straightConstraints": Vec(list(cs_in), SC)})
+        sout = default_obj(prog, "topology::Segment", {"edge": e, "start": P, "end": B, "straightConstraints": Vec(list(cs_out), SC)})
+        A.f["outSegment"] = sin
+        A.f["inSegment"] = other1
+        P.f["inSegment"] = sin
+        P.f["outSegment"] = sout
+        B.f["inSegment"] = sout
+        B.f["outSegment"] = other2
+        e.f["firstSegment"] = sin if first_is_in else other1
+        e.f["lastSegment"] = sout if last_is_out else other2
+        rec, rebuilt = [], []
+        hooks = dict(_LOG_HOOKS)
+        it = Interp(prog, Oracle([]), hooks=hooks)
+        it.vhooks["topology::Segment::transferStraightConstraint"] = lambda it_, recv, args, rec=rec: rec.append((recv, args[0]))
+        it.vhooks["topology::EdgePoint::createBendConstraint"] = lambda it_, recv, args, rebuilt=rebuilt: (rebuilt.append(recv), True)[1]
+        it.vhooks["topology::Segment::deleteStraightConstraints"] = lambda it_, recv, args: None
+        it.vhooks["topology::EdgePoint::deleteBendConstraint"] = lambda it_, recv, args: None
+        try:
+            s = it.call(fn, P, None, None, arg_values=[0])
+        except Unsupported as ex:
+            raise AnalysisBroken("EdgePoint::prune outside the interpreter subset: %s" % ex)
+        except AssertFail as ex:
+            r.bad("prune, %d + %d constraints" % (n_in, n_out), fn.where(), "assertion fails: %s" % ex)
+            continue
+        n_eval += 1
+        r.count()
+        what = "edge A -> P -> B, %d + %d straight constraints%s%s" % (n_in, n_out, ", in-segment first" if first_is_in else "",
+                                                                    ", out-segment last" if last_is_out else "")
+        bad = None
+        if not isinstance(s, Obj) or s.f.get("start") is not A or s.f.get("end") is not B or s.f.get("edge") is not e:
+            bad = "the returned segment does not run from the old in-segment's start to the old out-segment's end on the same edge"
+        elif A.f.get("outSegment") is not s or B.f.get("inSegment") is not s:
+            bad = "the end points are not linked to the merged segment"
+        elif e.f.get("nSegments") != 3:
+            bad = "Edge::nSegments is %r after merging two of 4 segments" % (e.f.get("nSegments"),)
+        elif (e.f.get("firstSegment") is not (s if first_is_in else other1)) or (e.f.get("lastSegment") is not (s if last_is_out else other2)):
+            bad = "Edge::firstSegment / lastSegment do not name the merged segment in place of the segment it replaces"
+        elif not (any(x is A for x in rebuilt) and any(x is B for x in rebuilt)):
+            bad = "the bend constraints of both ends of the merged segment are not rebuilt"
+        else:
+            for c in cs_in + cs_out:
+                k = sum(1 for recv, a in rec if a is c and recv is s)
+                if k != 1:
+                    bad = "the StraightConstraint about %s (scan position %s) of the old %s-segment is offered to the merged segment %d times" % (
+                        "the pruned bend's own node" if c.f["node"] is N else "another node", c.f["pos"], "in" if c in cs_in else "out", k)
+                    break
+            if bad is None and any(recv is not s for recv, a in rec):
+                bad = "a StraightConstraint is transferred to a segment other than the merged one"
+        (r.bad if bad else r.ok)(what, fn.where(), bad or "")
+    r.evaluations = n_eval
+
+
+def rule_prune_degenerate(chk, prog):
+    """PruneDegenerate: of two coincident consecutive bend points, the one that is not a turn goes."""
+    r = chk.rule("PRUNE-DEGENERATE", "PruneDegenerate::operator() interpreted on o -> p -> q over zero / non-zero segment lengths, present / absent "
+                 "predecessor of o and successor of q, collinear or not in the other dimension, and both outcomes of validTurn: p is put "
+                 "on the prune list exactly when it lies between two non-degenerate segments collinear with it, or it coincides with a "
+                 "neighbour and -- with that neighbour left out -- is not a valid turn (first the pair (o,p), otherwise the pair (p,q)); "
+                 "whether the OTHER side of the path has a further segment plays no role", floor=1)
+    cands = [f for k, f in prog.by_key.items() if k.startswith("topology::PruneDegenerate::operator()(") and f.body is not None]
+    if len(cands) != 1:
+        raise AnalysisBroken("PruneDegenerate::operator() not found")
+    fn = cands[0]
+    import itertools
+    n_eval, first_bad = 0, None
+    EP = "topology::EdgePoint *"
+    for in0, out0, o_has_in, q_has_out, coll, vt1, vt2 in itertools.product((True, False), repeat=7):
+        pts = {k: default_obj(prog, "topology::EdgePoint", {"_tag": k}) for k in "zopqr"}
+        z, o, p_, q, rr = (pts[k] for k in "zopqr")
+        seg = lambda a, b, ln: default_obj(prog, "topology::Segment", {"start": a, "end": b, "_len": ln})
+        s_zo, s_op, s_pq, s_qr = seg(z, o, 7), seg(o, p_, 0 if in0 else 5), seg(p_, q, 0 if out0 else 5), seg(q, rr, 7)
+        o.f["inSegment"] = s_zo if o_has_in else None
+        o.f["outSegment"] = s_op
+        p_.f["inSegment"] = s_op
+        p_.f["outSegment"] = s_pq
+        q.f["inSegment"] = s_pq
+        q.f["outSegment"] = s_qr if q_has_out else None
+        lst = Vec([], EP)
+        functor = Obj("topology::PruneDegenerate", {"pruneList": lst, "scanDim": 0})
+        it = Interp(prog, Oracle([]), hooks=dict(_LOG_HOOKS))
+        it.vhooks["topology::Segment::length"] = lambda it_, recv, args: recv.f["_len"]
+        it.vhooks["topology::EdgePoint::pos"] = lambda it_, recv, args, coll=coll: 3 if coll else {"o": 1, "p": 2, "q": 4}.get(recv.f["_tag"], 9)
+
+        def vturn(it_, recv, args, vt1=vt1, vt2=vt2, z=z, rr=rr, p_=p_):
+            u, v, w = args
+            if v is not p_:
+                return True           # (only the asserted sanity condition about the neighbour asks this)
+            return vt1 if u is z else vt2
+        it.vhooks["topology::validTurn"] = vturn
+        try:
+            it.call(fn, functor, None, None, arg_values=[p_])
+        except Unsupported as ex:
+            raise AnalysisBroken("PruneDegenerate::operator() outside the interpreter subset: %s" % ex)
+        except AssertFail as ex:
+            first_bad = first_bad or "assertion fails (%s)" % ex
+            continue
+        n_eval += 1
+        want = 0
+        if (not in0) and (not out0) and coll:
+            want += 1
+        if in0 and o_has_in and not vt1:
+            want += 1
+        elif out0 and q_has_out and not vt2:
+            want += 1
+        got = sum(1 for x in lst.items if x is p_)
+        if (got != want or len(lst.items) != got) and first_bad is None:
+            first_bad = ("in-segment length %s, out-segment length %s, o %s a predecessor, q %s a successor, %scollinear, p %s a turn without o, "
+                         "%s a turn without q: p is listed %d times, expected %d" % (
+                             "0" if in0 else ">0", "0" if out0 else ">0", "has" if o_has_in else "has not", "has" if q_has_out else "has not",
+                             "" if coll else "not ", "is" if vt1 else "is not", "is" if vt2 else "is not", got, want))
+    r.count()
+    r.evaluations = n_eval
+    (r.bad if first_bad else r.ok)("PruneDegenerate over 128 configurations", fn.where(), first_bad or "")
+
+
 def run(chk):
     prog = chk.load()
     rule_alpha(chk, prog)
     rule_solve(chk, prog)
     rule_corner_tables(chk, prog)
+    rule_prune(chk, prog)
+    rule_prune_degenerate(chk, prog)
